@@ -90,8 +90,13 @@ func (t *Target) AccessDeniedTCP(c net.Conn) bool {
 }
 
 func (t *Target) denyByIP(ip net.IP) bool {
-	if ip == nil || len(t.accessRules) == 0 {
+	if len(t.accessRules) == 0 {
 		return false
+	}
+	// an address which could not be parsed cannot be matched
+	// against the rules and must not bypass them.
+	if ip == nil {
+		return true
 	}
 	// check allow (whitelist) first if it exists
 	if _, ok := t.accessRules[ipAllowTag]; ok {
